@@ -186,3 +186,109 @@ package vegeta
 //@   loop 1
 //@     invariant -1 <= rangeindex && rangeindex < len(h.Counts)
 //@     decreases len(h.Counts) - rangeindex
+
+// ---------------------------------------------------------------------------------- C10
+
+//@ func newTdigestEstimator
+//@   trusted
+//@   ensures result != nil && fresh(result)
+
+//@ func (*LatencyMetrics).init
+//@   inline
+
+//@ func (*LatencyMetrics).Add
+//@   property C10
+//@   requires [non-nil] l != nil
+//@   requires [latency-non-negative] latency >= 0
+//@   assume   [total-latency-fits-int64] l.Total + latency <= MaxInt64 && l.Total >= 0
+//@   modifies l.Total, l.Max, l.Min, l.estimator
+//@   ensures [total] l.Total == old(l.Total) + latency
+//@   ensures [max] l.Max == max(old(l.Max), latency)
+//@   ensures [min] l.Min == (old(l.estimator) == nil ? latency : min(old(l.Min), latency))
+//@   ensures [estimator-set] l.estimator != nil
+
+//@ func (*Metrics).init
+//@   inline
+//@ func (*Result).End
+//@   inline
+
+// Metrics.Add: every aggregate is one fold step of its documented definition; `wf-*` is the
+// representation invariant of Metrics (established by the zero value, kept by Add and Close).
+//@ func (*Metrics).Add
+//@   property C10
+//@   requires [non-nil] m != nil && r != nil
+//@   requires [wf-first] (m.Latencies.estimator == nil) == (m.Requests == 0)
+//@   requires [wf-earliest] (m.Requests == 0 ==> m.Earliest == zeroTime && m.Latest == zeroTime && m.End == zeroTime) && (m.Requests > 0 ==> m.Earliest > zeroTime)
+//@   requires [wf-codes] forall k string :: 0 <= m.StatusCodes[k] && m.StatusCodes[k] <= m.Requests
+//@   requires [wf-success] m.success <= m.Requests
+//@   requires [wf-errors] len(m.Errors) == len(m.errors) && (forall i int :: 0 <= i && i < len(m.Errors) ==> has(m.errors, m.Errors[i]))
+//@   requires [wf-latency] m.Latencies.Total >= 0
+//@   requires [wf-order] m.Requests > 0 ==> m.Earliest <= m.Latest && m.Latest <= m.End
+//@   requires [timestamp-after-year-1] r.Timestamp > zeroTime
+//@   requires [latency-non-negative] r.Latency >= 0
+//@   requires [histogram-usable] m.Histogram != nil ==> len(m.Histogram.Buckets) >= 1 && r.Latency >= m.Histogram.Buckets[0]
+//@              && (forall a, b int :: 0 <= a && a < b && b < len(m.Histogram.Buckets) ==> m.Histogram.Buckets[a] < m.Histogram.Buckets[b])
+//@              && (len(m.Histogram.Counts) == len(m.Histogram.Buckets) || m.Histogram.Total == 0)
+//@              && (len(m.Histogram.Counts) == len(m.Histogram.Buckets) ==> (forall k int :: 0 <= k && k < len(m.Histogram.Counts) ==> m.Histogram.Counts[k] <= m.Histogram.Total))
+//@   assume   [history-length] m.Requests < 4611686018427387904 && (m.Histogram != nil ==> m.Histogram.Total < MaxUint64)
+//@   assume   [totals-fit] m.BytesOut.Total + r.BytesOut <= MaxUint64 && m.BytesIn.Total + r.BytesIn <= MaxUint64 && m.Latencies.Total + r.Latency <= MaxInt64
+//@   modifies m.Requests, m.StatusCodes, m.StatusCodes[*], m.BytesOut.Total, m.BytesIn.Total,
+//@            m.Latencies.Total, m.Latencies.Max, m.Latencies.Min, m.Latencies.estimator,
+//@            m.Earliest, m.Latest, m.End, m.success, m.errors, m.errors[*], m.Errors, m.Errors[cap],
+//@            m.Histogram.Counts, m.Histogram.Total, m.Histogram.Counts[*]
+//@   ensures [requests] m.Requests == old(m.Requests) + 1
+//@   ensures [status-codes] forall k string :: m.StatusCodes[k] == old(m.StatusCodes[k]) + (k == itoa(r.Code) ? 1 : 0)
+//@   ensures [bytes] m.BytesOut.Total == old(m.BytesOut.Total) + r.BytesOut && m.BytesIn.Total == old(m.BytesIn.Total) + r.BytesIn
+//@   ensures [latency-total] m.Latencies.Total == old(m.Latencies.Total) + r.Latency
+//@   ensures [latency-max] m.Latencies.Max == max(old(m.Latencies.Max), r.Latency)
+//@   ensures [latency-min] m.Latencies.Min == (old(m.Requests) == 0 ? r.Latency : min(old(m.Latencies.Min), r.Latency))
+//@   ensures [earliest] m.Earliest == (old(m.Requests) == 0 ? r.Timestamp : min(old(m.Earliest), r.Timestamp))
+//@   ensures [latest] m.Latest == max(old(m.Latest), r.Timestamp)
+//@   ensures [end] m.End == max(old(m.End), r.Timestamp + r.Latency)
+//@   ensures [success] m.success == old(m.success) + (200 <= r.Code && r.Code < 400 ? 1 : 0)
+//@   ensures [error-set] forall s string :: has(m.errors, s) == (old(has(m.errors, s)) || (s == r.Error && r.Error != ""))
+//@   ensures [error-list] len(m.Errors) == old(len(m.Errors)) + (r.Error != "" && !old(has(m.errors, r.Error)) ? 1 : 0)
+//@              && (forall i int :: 0 <= i && i < old(len(m.Errors)) ==> m.Errors[i] == old(m.Errors[i]))
+//@              && (len(m.Errors) > old(len(m.Errors)) ==> m.Errors[len(m.Errors)-1] == r.Error)
+//@   ensures [wf-first] (m.Latencies.estimator == nil) == (m.Requests == 0)
+//@   ensures [wf-earliest] m.Earliest > zeroTime
+//@   ensures [wf-codes] forall k string :: 0 <= m.StatusCodes[k] && m.StatusCodes[k] <= m.Requests
+//@   ensures [wf-success] m.success <= m.Requests
+//@   ensures [wf-errors] len(m.Errors) == len(m.errors) && (forall i int :: 0 <= i && i < len(m.Errors) ==> has(m.errors, m.Errors[i]))
+//@   ensures [wf-latency] m.Latencies.Total >= 0
+//@   ensures [wf-order] m.Earliest <= m.Latest && m.Latest <= m.End
+
+//@ func (LatencyMetrics).Quantile
+//@   modifies nothing
+
+// Metrics.Close: every derived field is its documented expression over the base fields (floats are
+// uninterpreted: this is equality of expression trees); it writes no base field, so it is idempotent
+// and can be interleaved with Add (periodic reporting) without changing the final values.
+//@ func (*Metrics).Close
+//@   property C10
+//@   requires [non-nil] m != nil
+//@   requires [wf-order] m.Requests > 0 ==> zeroTime < m.Earliest && m.Earliest <= m.Latest && m.Latest <= m.End
+//@   requires [time-span-fits] m.End - m.Earliest <= MaxInt64
+//@   modifies m.Rate, m.Throughput, m.Duration, m.Wait, m.BytesIn.Mean, m.BytesOut.Mean, m.Success,
+//@            m.Latencies.Mean, m.Latencies.P50, m.Latencies.P90, m.Latencies.P95, m.Latencies.P99,
+//@            m.StatusCodes, m.errors, m.Errors
+//@   ensures [base-maps-kept] (forall k string :: m.StatusCodes[k] == old(m.StatusCodes[k])) && (forall s string :: has(m.errors, s) == old(has(m.errors, s)))
+//@              && len(m.Errors) == old(len(m.Errors)) && (forall i int :: 0 <= i && i < len(m.Errors) ==> m.Errors[i] == old(m.Errors[i]))
+//@   ensures [empty-report-untouched] m.Requests == 0 ==> m.Rate == old(m.Rate) && m.Throughput == old(m.Throughput) && m.Duration == old(m.Duration) && m.Wait == old(m.Wait) && m.Success == old(m.Success)
+//@   ensures [duration] m.Requests > 0 ==> m.Duration == m.Latest - m.Earliest
+//@   ensures [wait] m.Requests > 0 ==> m.Wait == m.End - m.Latest
+//@   ensures [rate] m.Requests > 0 && dur_seconds(m.Duration) > 0.0 ==> m.Rate == real(m.Requests) / dur_seconds(m.Duration)
+//@   ensures [rate-zero-duration] m.Requests > 0 && !(dur_seconds(m.Duration) > 0.0) ==> m.Rate == real(m.Requests) && m.Throughput == real(m.success)
+//@   ensures [throughput] m.Requests > 0 && dur_seconds(m.Duration) > 0.0 ==> m.Throughput == real(m.success) / dur_seconds(m.Duration + m.Wait)
+//@   ensures [byte-means] m.Requests > 0 ==> m.BytesIn.Mean == real(m.BytesIn.Total) / real(m.Requests) && m.BytesOut.Mean == real(m.BytesOut.Total) / real(m.Requests)
+//@   ensures [success-ratio] m.Requests > 0 ==> m.Success == real(m.success) / real(m.Requests)
+//@   ensures [latency-mean] m.Requests > 0 ==> m.Latencies.Mean == f2i(real(m.Latencies.Total) / real(m.Requests), "time.Duration")
+
+// Order independence: every scalar aggregate step has the form agg' = agg (+) g(r) with (+) one of
+// +, max, min-with-"first" flag; two steps commute, so the fold over a multiset of results does
+// not depend on the order of addition (the error *set* is a union; only the order of the Errors
+// list depends on arrival order).
+//@ lemma fold_sum_commutes property C10 forall a, x, y int :: (a + x) + y == (a + y) + x
+//@ lemma fold_max_commutes property C10 forall a, x, y int :: max(max(a, x), y) == max(max(a, y), x)
+//@ lemma fold_min_first_commutes property C10 forall n, m, x, y int :: n >= 0 ==>
+//@     min((n == 0 ? x : min(m, x)), y) == min((n == 0 ? y : min(m, y)), x)
